@@ -7,7 +7,7 @@ from ..runner import Leg, Res, libcall
 
 PROPERTY = 'C14'
 NEED_C = True
-RULE = ('Query of length 1..5; 1..8 candidates with duplicates and exact ties (lattice values), equal/unequal lengths; k in '
+RULE = ('Query of length 1..5; 1..8 candidates (one case in 8: 9..24) with duplicates and exact ties (lattice values), equal/unequal lengths; k in '
         '1..N+1 or None; window, penalty, max_dist / max_value constructed between candidate distances (or absent); use_lb x '
         'use_c; ndim 1..2 (no psi: LB_Keogh is not a bound under psi). Oracle: exhaustive reference: all reference DTW '
         'distances, those above the threshold dropped, sorted; the returned distance sequence equals its first k entries, '
@@ -24,7 +24,7 @@ def _base(draw):
     ndim = draw(st.sampled_from([1, 1, 1, 2]))
     regime = draw(st.sampled_from(['L', 'L', 'L', 'F']))
     q = draw(gen.series(1, 5, regime, ndim))
-    n = draw(st.integers(1, 8))
+    n = draw(gen.count(1, 8, 24, one_in=8))
     eq = draw(st.booleans())
     L0 = draw(st.integers(1, 6))
     cands = []
